@@ -27,7 +27,7 @@ CHECKS = {
     "C18": {
         "engine": "stream", "category": "exploration", "design_ref": "DESIGN.md section 3",
         "technique": "deterministic simulation: seeded read() delivery schedules and read faults against forked tool incarnations, per-line and schedule-independence oracles",
-        "text": "Seeded search over (byte stream, read() schedule, optional read error) for dconv/dadd/dround -S with the real reader compiled at three window sizes (shipped 16 MiB/16384 lines/4 KiB, 2 KiB/64/64, 64 B/4/5) under ASan and without; every line boundary, refill, line-cap and window-full transition is reached thousands of times per run. Oracles: output equals the concatenation of one-line runs (terminators lenient), equals the model text for generator-known tokens, identical under the one-read schedule; read targets stay inside the window mapping. Sampling, not proof. A third of the plans take tool and options from a seeded invocation grammar (any option set of the three filters, one input format out of 34, random output formats, zones, --base, -E, 7..40 -i formats); there the replacement text of every value is checked against what the same tool prints for that value as an argument, and every fault-free plan is executed twice (generated schedule, one-read delivery) and compared byte for byte.",
+        "text": "Seeded search over (byte stream, read() schedule, optional read error) for dconv/dadd/dround -S with the real reader compiled at three window sizes (shipped 16 MiB/16384 lines/4 KiB, 2 KiB/64/64, 64 B/4/5) under ASan and without; every line boundary, refill, line-cap and window-full transition is reached thousands of times per run. Oracles: output equals the concatenation of one-line runs (terminators lenient), equals the model text for generator-known tokens, identical under the one-read schedule; read targets stay inside the window mapping. Sampling, not proof. A third of the plans take tool and options from a seeded invocation grammar (any option set of the three filters, one input format out of 34, random output formats, zones, --base, -E, 7..40 -i formats); there the replacement text of every value is checked against what the same tool prints for that value as an argument, and every fault-free plan is executed twice (generated schedule, one-read delivery) and compared byte for byte. Switches are repeated and respelled (-S -S, -SS, --sed-mode), day-of-year dates close a line, format pairs share a needle character.",
         "note": "Trusted: the simulated read()/mmap() (guard-paged, prefix-delivery semantics of POSIX read), the 20-line civil calendar model used for token replacement texts, the C-locale. Lines containing near-miss tokens are judged differentially only. Read errors use a relaxed oracle (line-prefix); EINTR/EAGAIN are injected for reach although the tools install no handlers.",
     },
 }
@@ -36,7 +36,7 @@ CHECKS.update({
     "C12": {
         "engine": "zone", "category": "exploration", "design_ref": "DESIGN.md section 5",
         "technique": "deterministic simulation: zone files through a simulated file layer, seeded op sequences on stateful zone handles, reference model of the TZif table as oracle",
-        "text": "Every file of the installed zone database (598 files, every transition -1/0/+1 s, forward and inverse, in seeded order) plus seeded synthetic TZif files (v1/v2/v3, 0..3000 transitions, >255, no-op transitions, v1 block differing from the 64-bit block) are served from the simulated file system; lookups run as op sequences on a handle with history and on a fresh handle, each answer compared with an independent table model; every fifth plan also runs dconv --zone/--from-zone and dzone --next --prev on the same file. Hangs are caught by a CPU budget. Sampling over op orders, exhaustive over the transitions of the installed database. dzone --prev is judged in the first range of the table as well (right-hand side only). Tool-level runs deliver their values as arguments, plain stdin lines, sed mode and empty mode, under zone paths of 9 to 1000 bytes; one plan kind runs dzone over 24..40 copies of the zone in a simulated process limited to 16 descriptors.",
+        "text": "Every file of the installed zone database (598 files, every transition -1/0/+1 s, forward and inverse, in seeded order) plus seeded synthetic TZif files (v1/v2/v3, 0..3000 transitions, >255, no-op transitions, v1 block differing from the 64-bit block) are served from the simulated file system; lookups run as op sequences on a handle with history and on a fresh handle, each answer compared with an independent table model; every fifth plan also runs dconv --zone/--from-zone and dzone --next --prev on the same file. Hangs are caught by a CPU budget. Sampling over op orders, exhaustive over the transitions of the installed database. dzone --prev is judged in the first range of the table as well (right-hand side only). Tool-level runs deliver their values as arguments, plain stdin lines, sed mode and empty mode, under zone paths of 9 to 1000 bytes; one plan kind runs dzone over 24..40 copies of the zone in a simulated process limited to 16 descriptors. Every third tool-level plan asks within 14 h of an inserted leap second; bare times are converted on the day of a transition with --base carrying a time of day.",
         "note": "Trusted: the 60-line reference TZif reader and civil-from-epoch formatter in sim/models.h. Instants before the first listed transition prime state but their value is not judged (the statement starts at the first transition). The inverse clause is judged on tables whose transitions are at least 26 h apart (all installed zones qualify). Tool-level output is compared only for quarter-hour offsets (%Z resolution) and years 1601..3800.",
     },
     "C13": {
@@ -69,7 +69,7 @@ CHECKS.update({
     "C08": {
         "engine": "sort", "category": "exploration", "design_ref": "DESIGN.md section 7b",
         "technique": "deterministic simulation of a process pipeline: dsort's real main against simulated pipes, vfork children and stub sort/cut processes stepped by a seeded scheduler (pipe capacities, short writes, interleavings); permutation, order and liveness oracles",
-        "text": "Scoped claim. What is simulated is the datesort clause: dsort computes a key per line, writes line and key with its own safe_write() into a pipe and relies on descriptor plumbing across two vfork()ed children to terminate. The simulator owns pipes (capacity 1 byte to 64 KiB), accepts as few bytes per write as the plan says, and picks which helper runs next; oracles: stdout is a permutation of the input lines, dated lines of one kind come out in chronological order (reverse with -r) by the generator's own instants, every helper sees EOF and is reaped (no deadlock, no descriptor misuse), and the real dtest agrees with the order of adjacent lines. The order laws of the comparison functions themselves (antisymmetry, transitivity, totality over all calendars) are pure functions of the values and are NOT decided by this technique; only the dtest cross-check touches them. Lines carry dates, date-times with and without UTC offsets, times, month-count-weekday dates and, with 1..40 -i formats, %Y%m%d and %d/%m/%Y stamps. The sort(1) stub parses the argv dsort hands it (-t SEP, -k F[,G], -r, -u) and orders by exactly those keys.",
+        "text": "Scoped claim. What is simulated is the datesort clause: dsort computes a key per line, writes line and key with its own safe_write() into a pipe and relies on descriptor plumbing across two vfork()ed children to terminate. The simulator owns pipes (capacity 1 byte to 64 KiB), accepts as few bytes per write as the plan says, and picks which helper runs next; oracles: stdout is a permutation of the input lines, dated lines of one kind come out in chronological order (reverse with -r) by the generator's own instants, every helper sees EOF and is reaped (no deadlock, no descriptor misuse), and the real dtest agrees with the order of adjacent lines. The order laws of the comparison functions themselves (antisymmetry, transitivity, totality over all calendars) are pure functions of the values and are NOT decided by this technique; only the dtest cross-check touches them. Lines carry dates, date-times with and without UTC offsets, times, month-count-weekday dates and, with 1..40 -i formats, %Y%m%d and %d/%m/%Y stamps. The sort(1) stub parses the argv dsort hands it (-t SEP, -k F[,G], -r, -u) and orders by exactly those keys. Some plans sort under --from-zone with a fixed offset and ask dtest with the same option; every eighth plan sits in a century year or at an end of the supported range.",
         "note": "Trusted: the stub sort(1)/cut(1) (keys as given by -t/-k on the command line dsort builds, bytewise C-locale comparison, last-resort whole-line comparison, -r, -u) -- locale-dependent collation of a real sort on tied keys is not simulated; the vfork emulation (setjmp in the caller's frame, child branch first). Lines containing the separator byte 0x01 are not generated (a pure-input limitation of dsort's protocol). -u is not exercised (output is then not a permutation by design).",
     },
 })
